@@ -220,6 +220,12 @@ BUILD_CASES = {
         query_fields=["foo", "bar"], args={},
         query="{ foo { a } bar { a } }", data={"foo": {"a": 1}, "bar": {"a": 2}}, log="['foo', 'bar']",
     ),
+    "resolver_recursion": dict(
+        src="from apischema.graphql import resolver\n@dataclass\nclass Rn:\n    v: int = 0\n    @resolver\n    def parent(self) -> Optional['Rn']:\n        return None if self.v > 0 else Rn(self.v + 1)\n"
+        "def rn() -> Rn:\n    LOG.append('rn')\n    return Rn()\n",
+        query_fields=["rn"], args={},
+        query="{ rn { v parent { v parent { v } } } }", data={"rn": {"v": 0, "parent": {"v": 1, "parent": None}}}, log="['rn']",
+    ),
     "info_middle": dict(
         src="def mid(a: int, info: graphql.GraphQLResolveInfo, b: Optional[int] = None) -> int:\n    LOG.append(('mid', a, b))\n    return a\n",
         query_fields=["mid"], args={"mid": {"a": "Int!", "b": "Int"}},
